@@ -1383,6 +1383,11 @@ def apply(f: Callable, args: ISeq | None):
     if args is None:
         raise TypeError("apply args cannot be nil")
 
+    # Applying a Var applies the function it holds, so that a variadic function gets
+    # the rest of a lazy (possibly infinite) final sequence unrealized here as well.
+    if isinstance(f, Var):
+        f = f.value
+
     # It is not possible to call apply with an empty seq from Basilisp (it will be
     # None instead), so this cannot trigger a ValueError.
     *final, last = list(args)
